@@ -153,6 +153,9 @@ class Run:
             vpaths.append((p, v["what"]))
         if os.environ.get("VERIF_DEBUG"):
             self._debug_buckets()
+        if os.environ.get("VERIF_DUMP"):
+            with open(os.environ["VERIF_DUMP"], "w") as f:
+                json.dump(self.violations, f)
         cov = dict(self.cov)
         cov.setdefault("evaluations", cov.get("traces_validated_against_impl", 0))
         cov["samples"] = self.samples if self.samples else ["(none)"]
